@@ -328,3 +328,50 @@ func objOf(info *types.Info, id *ast.Ident) types.Object {
 	}
 	return info.Defs[id]
 }
+
+// ctrlCond is a condition that controls a point: the point is only reachable through `outcome`.
+type ctrlCond struct {
+	cond    ast.Expr
+	outcome bool
+	at      an.Point
+}
+
+// controllingConds lists the branch conditions of fn that p is control-dependent on in the
+// strong sense: blocking one outcome edge makes p unreachable from the entry.
+func controllingConds(fn *an.Fn, p an.Point) []ctrlCond {
+	var out []ctrlCond
+	for _, b := range fn.G.Blocks {
+		if !b.Live {
+			continue
+		}
+		t, f, ok := an.CondEdges(b)
+		if !ok {
+			continue
+		}
+		cond := b.Nodes[len(b.Nodes)-1].(ast.Expr)
+		at := an.Point{B: b, I: len(b.Nodes) - 1}
+		if at == p {
+			continue
+		}
+		if !fn.ReachFromEntry(nil, map[an.Edge]bool{t: true})[p] {
+			out = append(out, ctrlCond{cond, true, at})
+		} else if !fn.ReachFromEntry(nil, map[an.Edge]bool{f: true})[p] {
+			out = append(out, ctrlCond{cond, false, at})
+		}
+	}
+	return out
+}
+
+// exactGuard checks that every atom of every condition controlling p satisfies allowed
+// (allowed receives the atom and the truth value the atom must have for p to be reached, when
+// that is determined). Returns the first offending atom.
+func exactGuard(fn *an.Fn, p an.Point, allowed func(atom ast.Expr) bool) (bool, string) {
+	for _, cc := range controllingConds(fn, p) {
+		for _, a := range condAtoms(cc.cond) {
+			if !allowed(a) {
+				return false, an.Str(a)
+			}
+		}
+	}
+	return true, ""
+}
